@@ -23,7 +23,7 @@ PROPS["C13"] = {
                    "loop contracts with variants on its three loops, no unwinding anywhere; string CONTENT abstracted so that one run covers every document, file system and include graph): "
                    "(G) a file is opened / expanded only after its path was compared with EVERY path on the stack of files being expanded and found different (ghost index; also the precondition of every nested call), "
                    "(S) the stack is restored on return, (T) the marker loop has a variant: the bytes after the search position strictly decrease, (R) the search resumes exactly after the inserted text / the opening braces of a marker left in place "
-                   "(nothing skipped, nothing rescanned), (P) the search position stays inside the string, (M) a path enters the manifest only after it differed from EVERY manifest entry and existing entries are never changed, (X) the metadata extent the engine reports for an included file is erased in full before the file is inserted, "
+                   "(nothing skipped, nothing rescanned), (P) the search position stays inside the string, (M) a path enters the manifest only after it differed from EVERY manifest entry and existing entries are never changed, (C) a resolved marker that is not a file being expanded is looked up in the file system, (X) the metadata extent the engine reports for an included file is erased in full before the file is inserted, "
                    "every object created is released.  Four configurations (parsed NULL / non-NULL x manifest NULL / non-NULL), each in a quick variant (string lengths < 4096: labelled bounded) and a thorough variant (lengths < 2^32: proof). "
                    "Two bounded units on the real function with real path helpers complete it: c13_marker_buffer (text[1100] accesses for every marker position and length, >= 1000-byte marker skipped) and "
                    "c13_wildcard (for every output format {{a.*}} requests /a.html | /a.tex | /a.fodt | /a.* | /a.txt, a missing file leaves its marker).",
@@ -45,16 +45,16 @@ def _c13_loops(nested, man):
             " && source->currentStringLength < source->currentStringBufferSize"
             " && (start == 0 || (__CPROVER_same_object(start, source->str) && start == g_last && (unsigned long)start >= (unsigned long)source->str"
             "     && (unsigned long)start - (unsigned long)source->str + 2 <= source->currentStringLength"
-            "     && g_S->opened && !g_S->ins && !g_S->toc && g_S->open_off == (unsigned long)start - (unsigned long)source->str))")
+            "     && g_S->opened && !g_S->ins && !g_S->toc && !g_S->cand && g_S->open_off == (unsigned long)start - (unsigned long)source->str))")
     guard = {"match": r"for \(.*<\s*stack_depth", "vars": ["i@loop", "stack_depth", "temp"],
              "invariants": "i >= 0 && (unsigned long)i <= stack_depth && !g_eq && (!(g_k < (unsigned long)i) || g_hit) && g_mhit == __CPROVER_loop_entry(g_mhit) && g_meq == __CPROVER_loop_entry(g_meq)",
-             "assigns": "i, temp, g_hit, g_eq, g_mhit, g_meq, g_peek_stack, g_peek_idx", "decreases": "stack_depth - (unsigned long)i"}
+             "assigns": "i, temp, g_hit, g_eq, g_mhit, g_meq, g_peek_stack, g_peek_idx, g_S->any_eq", "decreases": "stack_depth - (unsigned long)i"}
     mani = {"match": r"for \(.*<\s*manifest->size", "vars": ["i@loop", "manifest", "temp", "add"],
             "invariants": "i >= 0 && (unsigned long)i <= manifest->size && (!add || !g_meq) && (!(add && g_mk < (unsigned long)i) || g_mhit) && g_hit == __CPROVER_loop_entry(g_hit) && g_eq == __CPROVER_loop_entry(g_eq)",
             "assigns": "i, temp, add, g_hit, g_eq, g_mhit, g_meq, g_peek_stack, g_peek_idx", "decreases": "manifest->size - (unsigned long)i"}
     marker = {"match": r"while \(start", "vars": ["source", "parse_stack", "stack_depth", "start", "stop", "last_match", "text", "file_path", "buffer", "temp", "e", "offset"],
               "invariants": inv0,
-              "assigns": "start, stop, last_match, __CPROVER_object_whole(text), file_path, buffer, temp, e, offset, source->currentStringLength, __CPROVER_object_whole(g_p0), __CPROVER_object_whole(g_p1), g_S->open_off, g_S->stop_off, g_S->ins_len, g_S->opened, g_S->ins, g_S->toc, "
+              "assigns": "start, stop, last_match, __CPROVER_object_whole(text), file_path, buffer, temp, e, offset, source->currentStringLength, __CPROVER_object_whole(g_p0), __CPROVER_object_whole(g_p1), g_S->open_off, g_S->stop_off, g_S->ins_len, g_S->opened, g_S->ins, g_S->toc, g_S->cand, g_S->any_eq, g_S->scanned, "
                          "g_hit, g_eq, g_mhit, g_meq, g_last, g_peek_stack, g_peek_idx, parse_stack->size, __CPROVER_object_whole(parse_stack->element)",
               "decreases": "start == 0 ? 0 : 1 + source->currentStringLength - ((unsigned long)start - (unsigned long)source->str)"}
     if man:
